@@ -3,6 +3,7 @@ package main
 import (
 	"encoding/json"
 	"fmt"
+	"math/big"
 	"net/netip"
 	"reflect"
 	"sort"
@@ -33,6 +34,12 @@ func jsonCoq(v any) string {
 				return fmt.Sprintf("(JNum (%d)%%Z)", i)
 			}
 			return fmt.Sprintf("(JNum %d%%Z)", i)
+		}
+		if t := x.String(); allDigits(strings.TrimPrefix(t, "-")) { // an integer beyond 64 bits: Coq's Z takes it as it is
+			if strings.HasPrefix(t, "-") {
+				return "(JNum (" + t + ")%Z)"
+			}
+			return "(JNum " + t + "%Z)"
 		}
 		return "(JStr " + coqBytes([]byte(x.String())) + ")"
 	case []any:
@@ -597,6 +604,18 @@ func runC14(o Opts) error {
 		}
 		for _, t := range []string{"0", "1", "13", "14", "-1", "99999999999", `"unlock door"`, `"UNLOCK  DOOR"`, `"unlock-door"`, `"3"`, `"enable card+in password"`, `"nonsense"`, `""`, "1.5"} {
 			c14of(s, "TaskType", t, z, "of/task-type")
+		}
+		// numerals that are in range only modulo 2^32 / 2^63 / 2^64 (a hand-rolled digit loop wraps)
+		for _, base := range []string{"4294967296", "9223372036854775808", "18446744073709551616", "340282366920938463463374607431768211456"} {
+			for _, k := range []int{0, 1, 7, 13, 14} {
+				bn, _ := new(big.Int).SetString(base, 10)
+				txt := bn.Add(bn, big.NewInt(int64(k))).String()
+				c14of(s, "TaskType", txt, z, "of/task-type")
+				c14of(s, "TaskType", q(txt), z, "of/task-type")
+				c14text(s, 3, txt, "text/TaskType.UnmarshalTSV")
+				c14of(s, "PIN", q(txt), z, "of/pin")
+				c14text(s, 4, txt, "text/CardFormatFromString")
+			}
 		}
 		for _, t := range []string{"1", "13", "0", "14", "007", "lock door", "Lock Door", "trigger  once", "", "x", "12 ", "ENABLE MORE CARDS"} {
 			c14text(s, 3, t, "text/TaskType.UnmarshalTSV")
